@@ -280,13 +280,27 @@ impl Epoch {
                     prime_epoch_offset + delta_tdb_tai - ts.prime_epoch_offset()
                 }
                 TimeScale::UTC => {
-                    // Assume it's TAI
-                    let epoch = Self {
-                        duration: prime_epoch_offset,
-                        time_scale: TimeScale::TAI,
+                    // TAI = UTC + leap_seconds <=> UTC = TAI - leap_seconds, where the leap seconds are those in force at
+                    // the UTC instant, because the leap second table is indexed by UTC timestamps.
+                    let utc_with_leap_seconds_at = |duration: Duration| {
+                        // Assume it's TAI
+                        let epoch = Self {
+                            duration,
+                            time_scale: TimeScale::TAI,
+                        };
+                        prime_epoch_offset - epoch.leap_seconds(true).unwrap_or(0.0).seconds()
                     };
-                    // TAI = UTC + leap_seconds <=> UTC = TAI - leap_seconds
-                    prime_epoch_offset - epoch.leap_seconds(true).unwrap_or(0.0).seconds()
+                    // Looked up with the TAI duration, the table yields the entry in force or, for as many seconds past an
+                    // entry's timestamp as its offset, that next entry: look it up again with the UTC duration this leads to.
+                    let early = utc_with_leap_seconds_at(prime_epoch_offset);
+                    let utc = utc_with_leap_seconds_at(early);
+                    if utc == early || utc_with_leap_seconds_at(utc) == utc {
+                        utc
+                    } else {
+                        // This is the inserted leap second itself, which no UTC duration represents: keep counting the
+                        // last second before the new offset applies.
+                        early
+                    }
                 }
                 TimeScale::GPST => prime_epoch_offset - GPST_REF_EPOCH.to_tai_duration(),
                 TimeScale::GST => prime_epoch_offset - GST_REF_EPOCH.to_tai_duration(),
